@@ -38,7 +38,18 @@ def generate(rng, prop, tier):
             d = models.draw(rng, max_states=3, max_controls=2, max_cal=2, max_sensors=3, min_sensors=0 if prop == "C12" else 1, symbol_keys=False)
         if bool(d["control"]) == want_ctl and bool(d["calibration"]) == want_cal:
             break
-    cfg = {"cse": rng.random() < 0.5, "innovation_filtering": rng.choice(K_MENU), "max_dt_sec": fx(rng.choice(MAXDT_MENU))}
+    cfg = {"cse": rng.random() < 0.5, "innovation_filtering": rng.choice(K_MENU), "max_dt_sec": fx(rng.choice(MAXDT_MENU)),
+           "config_as_dict": rng.random() < 0.4}
+    # state carried across generations: other definitions generated in the same process before the one under test
+    # (sharing sensor names with it), as a build script that emits several filters does
+    decoys = []
+    if rng.random() < 0.35:
+        for _ in range(rng.randint(1, 2)):
+            dd = models.draw(rng, max_states=3, max_controls=2, max_cal=2, max_sensors=2, min_sensors=1, symbol_keys=False)
+            # same sensor names as the model under test, different models/noise
+            keys = list(d["sensors"])
+            dd["sensors"] = {(keys[j] if j < len(keys) else k_): v for j, (k_, v) in enumerate(dd["sensors"].items())}
+            decoys.append(dd)
     max_dt = xf(cfg["max_dt_sec"])
     k = cfg["innovation_filtering"]
     ref = ekfw.cached_ref(d)
@@ -78,9 +89,14 @@ def generate(rng, prop, tier):
                 nr = rng.choice([0, 0, 1, 2, 3]) if sensors else 0
                 t_now = t_held + rng.uniform(0.2, 6) * max_dt
                 readings, tf = [], []
+                probe_pair = sensors and rng.random() < 0.12
+                if probe_pair:
+                    # output-only tick to T, then a tick to the SAME T whose readings are all stamped at the held time
+                    ops.append({"op": "tick", "t_out": fx(t_now), "control": ctl, "readings": [], "has_list": False, "faults": []})
+                    nr = rng.choice([1, 2])
                 for _j in range(nr):
                     key = rng.choice(sensors)
-                    q = rng.random()
+                    q = 0.4 if probe_pair else rng.random()
                     f = []
                     if q < 0.25:
                         st = t_held - rng.uniform(0, 5) * max_dt
@@ -104,12 +120,17 @@ def generate(rng, prop, tier):
                     rid += 1
                     readings.append({"t": fx(st), "sensor": key, "rid": rid, "values": {r_: fx(v) for r_, v in z.items()}, "faults": f + cf})
                 t_out = t_now
-                if rng.random() < 0.15:
+                if probe_pair:
+                    tf.append("same_t_out")
+                elif rng.random() < 0.15:
                     t_out = t_held - rng.uniform(0, 4) * max_dt
                     tf.append("clock_jump")
                 elif rng.random() < 0.1:
                     t_out = t_held
                     tf.append("zero_tick")
+                elif ops and ops[-1]["op"] == "tick" and rng.random() < 0.15:
+                    t_out = xf(ops[-1]["t_out"])
+                    tf.append("same_t_out")
                 ops.append({"op": "tick", "t_out": fx(t_out), "control": ctl, "readings": readings, "has_list": bool(readings) or rng.random() < 0.5, "faults": tf})
     except (ekfw.GenStop, *reference.NUMERIC):
         pass
@@ -129,7 +150,7 @@ def generate(rng, prop, tier):
         nis_ops.append({"m": m, "k": fx(kk), "z": [fx(alpha * v[0]) for v in dvec], "Sinv": [[fx(v) for v in row] for row in Sinv]})
     if rng.random() < 0.5:  # exact tie for the helper: S^-1 = diag(1,2), z = (2,2), k = 5: NIS = 12 = 5*2+2
         nis_ops.append({"m": 2, "k": fx(5.0), "z": [fx(2.0), fx(2.0)], "Sinv": [[fx(1.0), fx(0.0)], [fx(0.0), fx(2.0)]], "tie": True})
-    return {"config": cfg, "model": d, "init": init, "ops": ops, "nis_ops": nis_ops, "faults": tags + d.get("tags", [])}
+    return {"config": cfg, "model": d, "decoys": decoys, "init": init, "ops": ops, "nis_ops": nis_ops, "faults": tags + d.get("tags", []) + (["prior_generation"] if decoys else [])}
 
 
 # --------------------------------------------------------------------------- C++ driver text
@@ -199,7 +220,9 @@ def driver_source(d):
     A("static MF::StampedReading read_stamped(std::istringstream& ls) {\n  double t = rd(ls); int si; long rid; ls >> si >> rid;\n  switch (si) {")
     for si, key in enumerate(sensors):
         T = key.title()
-        A(f"    case {si}: {{ {T} r = read_reading_{si}(ls); g_inputs.push_back([r](const EKF& e, const SV& s) {{ return r.{T}::sensor_model(e, s{gcal_arg}); }}); return MF::wrap(t, Logged<{T}>(r, {si}, rid)); }}")
+        A(f"    case {si}: {{ {T} r = read_reading_{si}(ls); g_inputs.push_back([r](const EKF& e, const SV& s) {{ return r.{T}::sensor_model(e, s{gcal_arg}); }});")
+        A(f"      if (rid % 2) return MF::wrap(t, Logged<{T}>(r, {si}, rid));  // temporary")
+        A(f"      Logged<{T}> scratch(r, {si}, rid); auto w = MF::wrap(t, scratch); scratch = Logged<{T}>({T}(), {si}, -rid); return w; }}  // lvalue, reused by the caller afterwards")
     A("  }\n  std::abort();\n}")
     # plain (unlogged) instantiation: construction and ticks with and without readings must compile for the generated type itself
     A("[[maybe_unused]] static SV compile_only_plain() {\n  SV sv;")
@@ -272,7 +295,8 @@ def generate_cpp(d, cfg, workdir):
     sys.argv = ["generator.py", "--header", header, "--source", source, "--namespace", "ns"]
     try:
         with contextlib.redirect_stdout(io.StringIO()):
-            config = cpp.Config(common_subexpression_elimination=cfg["cse"], innovation_filtering=cfg["innovation_filtering"], max_dt_sec=xf(cfg["max_dt_sec"]))
+            kw = {"common_subexpression_elimination": cfg["cse"], "innovation_filtering": cfg["innovation_filtering"], "max_dt_sec": xf(cfg["max_dt_sec"])}
+            config = kw if cfg.get("config_as_dict") else cpp.Config(**kw)
             r = cpp.compile_ekf(b["model"], b["process_noise"], b["sensor_models"], b["sensor_noises"], b["calibration_map"], config=config)
     finally:
         sys.argv = argv
@@ -292,6 +316,11 @@ class CppLeg:
         self.dir = cppbuild.tmpdir("fsim_gen_")
         self.error = None
         self.stage = None
+        for j, dd in enumerate(schedule.get("decoys", [])):
+            try:
+                generate_cpp(dd, dict(cfg, config_as_dict=False), os.path.join(self.dir, f"decoy{j}"))
+            except Exception:  # noqa: BLE001
+                pass  # a decoy only has to have been generated in this process
         try:
             header, source = generate_cpp(d, cfg, self.dir)
         except Exception as e:  # noqa: BLE001
@@ -385,8 +414,14 @@ def _lockstep(schedule, leg, res):
     k = cfg["innovation_filtering"]
     b = models.build(d)
     with contextlib.redirect_stdout(io.StringIO()):
-        pe = python.compile_ekf(b["model"], b["process_noise"], b["sensor_models"], b["sensor_noises"], b["calibration_map"],
-                                config=python.Config(common_subexpression_elimination=cfg["cse"], innovation_filtering=k, max_dt_sec=xf(cfg["max_dt_sec"])))
+        pkw = {"common_subexpression_elimination": cfg["cse"], "innovation_filtering": k, "max_dt_sec": xf(cfg["max_dt_sec"])}
+        for dd in schedule.get("decoys", []):
+            try:
+                bd = models.build(dd)
+                python.compile_ekf(bd["model"], bd["process_noise"], bd["sensor_models"], bd["sensor_noises"], bd["calibration_map"], config=python.Config(common_subexpression_elimination=False))
+            except Exception:  # noqa: BLE001
+                pass
+        pe = python.compile_ekf(b["model"], b["process_noise"], b["sensor_models"], b["sensor_noises"], b["calibration_map"], config=pkw if cfg.get("config_as_dict") else python.Config(**pkw))
     ref = ekfw.cached_ref(d)
     st = pe.State(**{s: xf(v) for s, v in init["state"].items()})
     cov = pe.Covariance.from_data(np.array([[xf(v) for v in row] for row in init["covariance"]], dtype=float))
